@@ -513,6 +513,60 @@ def constructs_case(k, acc: Acc):
                                         what=f"{new[ln].strip()!r}: missing {sorted(req - mine)}, not accessible there {sorted(mine - req - opt)}"))
 
 
+NESTED_ONLY = """module zqn_host
+  use zqmod, only: zqv_pub
+  implicit none
+contains
+  subroutine zqn_inner()
+    use zqmod, only: zqf_fun
+    integer :: zql_a
+    zql_a = zq
+  end subroutine zqn_inner
+  subroutine zqn_other()
+    integer :: zql_b
+    zql_b = zq
+  end subroutine zqn_other
+  subroutine zqn_third()
+    use zqmod, only: zqr_ren => zqt_leaf
+    integer :: zql_c
+    zql_c = zq
+  end subroutine zqn_third
+end module zqn_host
+"""
+NESTED_EXPECT = {"inner": ({"zqv_pub", "zqf_fun", "zql_a"}, 7), "other": ({"zqv_pub", "zql_b"}, 11), "third": ({"zqv_pub", "zqr_ren", "zql_c"}, 16)}
+NESTED_OPT = {"zqn_inner", "zqn_other", "zqn_third", "zqn_host"}
+
+
+def nested_only_case(seq, acc: Acc):
+    """One module is named by USE statements with different ONLY lists in a host and in two of its procedures: what a
+    scope is offered depends on its own and its host's statements only - not on the scopes asked before in the session.
+    The typed text is in the file from the start (nothing is re-parsed between the requests)."""
+    sc = worker_scratch("c12")
+    sc.wipe()
+    root = os.path.realpath(os.path.join(sc.path, "w"))
+    os.makedirs(root)
+    for n, t in {"zqmod.f90": LIB, "zqnested.f90": NESTED_ONLY}.items():
+        with open(os.path.join(root, n), "w") as f:
+            f.write(t)
+    s = Server([])
+    s.initialize(root)
+    path = os.path.join(root, "zqnested.f90")
+    lines = NESTED_ONLY.split("\n")
+    for k, where in enumerate(seq):
+        want, ln = NESTED_EXPECT[where]
+        r = s.result("textDocument/completion", Server.tdpp(path, ln, len(lines[ln])))
+        labels = {c["label"].lower() for c in r} if isinstance(r, list) else set()
+        mine = {l for l in labels if l.startswith("zq")}
+        acc.case(nontrivial_key=("nested_only", seq, k), outcome=("nested_only", where, len(want)))
+        acc.count("completions")
+        if (want - mine) or (mine - want - NESTED_OPT):
+            acc.violation(Violation("completion", {"family": "completion", "context": "nested_only", "access": "only_lists_in_host_and_procedures", "scope": where,
+                                                   "upper": False, "obs": "missing" if want - mine else "extra", "class": "use_associated"},
+                                    {"sequence": list(seq), "step": k, "context": "nested_only"}, sorted(want), sorted(mine),
+                                    what=f"scopes asked {list(seq[:k + 1])}: in {where} expected {sorted(want)}, offered {sorted(mine)}"))
+            return
+
+
 SUBORDER = {
     "zqsub_a_impl.f90": "submodule (zqsub_par) zqsub_impl\n  implicit none\ncontains\n  module procedure zqs_proc\n    integer :: zql_local\n    zql_local = zq\n  end procedure zqs_proc\n"
                         "  module procedure zqf_res\n    zqr_out = zq\n  end procedure zqf_res\nend submodule zqsub_impl\n",
@@ -577,6 +631,11 @@ def main(ctx):
     acc.merge(kacc)
     oacc = core.pmap(suborder_case, [tuple(sorted(SUBORDER)), tuple(sorted(SUBORDER, reverse=True))], chunk=1, budget_s=120, label="C12/suborder")
     acc.merge(oacc)
+    import itertools as _it
+
+    seqs = [q for n in (1, 2, 3) for q in _it.product(("other", "inner", "third"), repeat=n)]
+    eacc = core.pmap(nested_only_case, seqs, chunk=2, budget_s=120, label="C12/nested_only")
+    acc.merge(eacc)
     nacc = core.pmap(constructs_case, list(range(len(CONSTRUCT_PROBES))), chunk=1, budget_s=120, label="C12/constructs")
     acc.merge(nacc)
     ctx.add_family("completion", acc)
@@ -585,6 +644,9 @@ def main(ctx):
 def replay(rec):
     c = rec["case"]
     acc = Acc()
+    if c.get("context") == "nested_only":
+        nested_only_case(tuple(c["sequence"]), acc)
+        return [v.to_json("C12") for v in acc.violations] or None
     if c.get("context") == "constructs":
         constructs_case(c["probe"], acc)
         return [v.to_json("C12") for v in acc.violations if v.case["typed"] == c["typed"]] or None
